@@ -139,7 +139,11 @@ theorem eval_mono (g : G) (P P' : Props) (hP : Extends P P') (e : E) :
     simp only [bind, Except.bind]
     split at h
     · rename_i hc; rw [if_pos hc]; exact ih2 row v h
-    · rename_i hc; rw [if_neg hc]; exact ih3 row v h
+    · rename_i hc
+      rw [if_neg hc]
+      split at h
+      · rename_i hc2; rw [if_pos hc2]; exact ih3 row v h
+      · cases h
   | comp x l f m ih1 ih2 ih3 =>
     intro row v h
     simp only [eval] at h ⊢
